@@ -174,6 +174,10 @@ M("c12.scrypt.integerify", "C12", "src/scrypt.c", "        index = LOAD_U32_LITT
 M("c12.scrypt.blockmix.shuffle", "C12", "src/scrypt.c", "        y = &out[(i/2) + (i & 1)*r];", "        y = &out[i];", "K-pw|c|salsa.scrypt")
 M("c12.scrypt.p.revert", "C12", "lib/Crypto/Protocol/KDF.py", "    if r < 1 or p < 1:\n        raise ValueError(\"r and p must be positive\")\n", "", "G|scrypt.")
 M("c12.pbkdf1.count.revert", "C12", "lib/Crypto/Protocol/KDF.py", "    if count < 1:\n        raise ValueError(\"The iteration count must be positive\")\n", "", "G|pbkdf1.count")
+M("c02.length.salsa.revert", "C02", "src/Salsa20.c", "                           uint8_t out[], size_t len)\n{\n    size_t i;", "                           uint8_t out[], size_t len)\n{\n    unsigned i;", "M|c|length|Salsa20.c")
+M("c16.length.ghash.revert", "C16", "src/ghash_portable.c", "{\n    size_t i;\n    const t_v_tables *v_tables;", "{\n    unsigned i;\n    const t_v_tables *v_tables;", "M|c|length|ghash_portable.c")
+M("c03.length.md5.counter", "C03", "src/MD5.c", "        hs->curlen += btc;\n        len -= btc;", "        hs->curlen += btc;\n        len -= btc;\n        hs->curlen += (unsigned)(len >> 40);", "M|c|length|MD5.c")
+M("c03.twin.length.ripemd", "C03", "src/RIPEMD160.c", "        hs->bufpos += (unsigned)len;", "        hs->bufpos = hs->bufpos + (unsigned)len;", twin=True)
 SHA2T = "src/hash_SHA2_template.c"
 M("c03.digest.sha256.k63", "C03", SHA2T, "0x84c87814, 0x8cc70208,", "0x84c87814, 0x8cc70209,", "K-kat|c|digest.md")
 M("c03.digest.sha512.sigma", "C03", SHA2T, "#define sigma_1_512(x)    (ROTR64(19,x) ^ ROTR64(61,x) ^ SHR(6,x))", "#define sigma_1_512(x)    (ROTR64(19,x) ^ ROTR64(61,x) ^ SHR(7,x))", "K-kat|c|digest.md")
